@@ -61,7 +61,8 @@ for length in lens:
     bs |= {int(x) for x in rng.integers(1, max(2, length + 5), size=4 if Q else 12)}
     for b in sorted(bs):
         for (shape, axis) in (((length,), 0), ((length, 3), 0), ((2, length), 1), ((2, length), -1),
-                              ((2, length, 3), 1)):
+                              ((2, length, 3), 1), ((2, length, 3), -2), ((length, 2, 3), -3), ((2, 3, length), -1),
+                              ((2, 1, length, 3), -2), ((2, length, 1, 3), -3), ((length,), -1)):
             sels = list(arim.helpers.chunk_array(shape, b, axis=axis))
             ax = list(range(len(shape)))[axis]
             got = []
